@@ -103,7 +103,7 @@ def check(ctx, rep, nsets, only=None):
                 rep.violation("bound_set_untouched", SITE + ".__init__", f"constructing the transformer changed the caller's bound arrays: lb={lb} ub={ub} plb={plb} pub={pub} -> "
                               f"{[a.ravel().tolist() for a in arrs]}", case)
                 continue
-            if si % 3 == 0:
+            if only is not None or si % 3 == 0:
                 # the helper through which BADS maps given points (x0) into internal coordinates: the image of a point must not depend on
                 # the dtype it is spelled in (integer-typed points) nor on how many points are mapped at once
                 from pybads.search.grid_functions import grid_units
@@ -130,6 +130,27 @@ def check(ctx, rep, nsets, only=None):
                             rep.violation("point_dtype_irrelevant", "grid_functions.py:grid_units", f"points {rows[:len(want)]} given as {name} map to {np.asarray(got).tolist()} "
                                           f"instead of {want.tolist()} (bounds lb={lb} ub={ub} plb={plb} pub={pub})", case)
                             break
+            if (only is not None or si % 4 == 1) and all(math.isfinite(p_) and math.isfinite(q_) for p_, q_ in zip(plb, pub)):
+                # the same rule through the optimizer's constructor: options['nonlinear_scaling'] in any truthy / falsy spelling switches the
+                # log rule on / off for the transform BADS builds
+                from pybads import BADS
+                spelled = rng.choice([("True", True), ("1", True), ("np.True_", True), ("np.int64(1)", True), ("False", False), ("0", False), ("np.False_", False)])
+                if only is not None and only[si].get("nonlinear_spelling"):
+                    sp_ = only[si]["nonlinear_spelling"]
+                    spelled = (sp_, bool(eval(sp_, {"np": np})))
+                x0b = np.array([[p_ + (q_ - p_) * 0.37 for p_, q_ in zip(plb, pub)]])
+                try:
+                    bb_ = BADS(lambda x: 0.0, x0b, np.array([lb]), np.array([ub]), np.array([plb]), np.array([pub]),
+                               options={"display": "off", "nonlinear_scaling": eval(spelled[0], {"np": np})})
+                    got = [bool(v) for v in np.asarray(bb_.var_transf.apply_log_t).reshape(-1)]
+                    want = [bool(spelled[1] and l > 0 and u > 0 and p_ > 0 and q_ > 0 and q_ / p_ >= 10) for l, u, p_, q_ in zip(lb, ub, plb, pub)]
+                    stats["bads_level_sets"] = stats.get("bads_level_sets", 0) + 1
+                    if got != want:
+                        rep.violation("log_rule", "bads.py:_init_optim_state_ / " + SITE, f"BADS(..., options={{'nonlinear_scaling': {spelled[0]}}}) log-transforms coordinates {got}, "
+                                      f"the rule gives {want} (lb={lb} ub={ub} plb={plb} pub={pub})", dict(case, nonlinear_spelling=spelled[0]))
+                        continue
+                except ValueError:
+                    pass          # a definition BADS rejects for other reasons (margins, ...): C08's business
             if si % 5 == 0:
                 vt2 = VariableTransformer(D, arrs[0], arrs[1], arrs[2], arrs[3], flag)
                 if not (np.array_equal(vt2.lb, vt.lb) and np.array_equal(vt2.ub, vt.ub) and np.array_equal(vt2.apply_log_t, vt.apply_log_t)):
